@@ -1,5 +1,17 @@
 package binary
 
-import "github.com/microsoft/yardl/tooling/pkg/dsl"
+import (
+	"bytes"
+
+	"github.com/microsoft/yardl/tooling/internal/formatting"
+	"github.com/microsoft/yardl/tooling/pkg/dsl"
+)
 
 func VerifTypeRwFunction(t dsl.Type, write bool) string { return typeRwFunction(t, write) }
+
+func VerifWriteSerializers(t dsl.TypeDefinition) string {
+	b := bytes.Buffer{}
+	w := formatting.NewIndentedWriter(&b, "  ")
+	writeSerializers(w, t)
+	return b.String()
+}
